@@ -332,6 +332,171 @@ Section Action.
   Definition action_digest (d : decl) : option str := option_map HA (action_of d).
 End Action.
 
+(* ---- Client.digestMessage under concurrency (follow-up round 2) ----
+   One Client serves every build worker; buildAction calls digestMessage three times (input root, Command,
+   Action{CommandDigest, InputRootDigest, ...}).  digestMessage is TWO steps - serialise the message into a
+   byte buffer, hash the buffer - and another goroutine may run between them.  Where the buffer lives is what
+   matters: a slice freshly allocated by the calling goroutine (BLocal), or a field of the shared Client
+   (BShared).  The program of digestMessage is regenerated from the source by gotrans (Gen.DirWalk
+   digest_message_prog); the machine below interprets ANY such program under ANY schedule.
+   Abstractions: a buffer holds the message it was serialised from (proto.Marshal is a function of the
+   message; checked by the oracle against an independent deterministic marshaller); an unwritten buffer hashes
+   to a fixed token; slice-header tearing is not modelled (a data race on BShared is already a digest of the
+   wrong message here). *)
+Inductive amsg := MDir (m : dirmsg) | MCmd (m : cmdmsg) | MAct (m : actmsg).
+Inductive bufclass := BLocal | BShared.
+Inductive dstep := DMarshal (b : bufclass) | DHash (b : bufclass).
+
+(* what a goroutine does: given the digests it has obtained so far, the next message to digest (None: done) *)
+Definition job := list str -> option amsg.
+
+Record thread := TH {
+  t_job : job;
+  t_done : list str;            (* digests returned by the completed digestMessage calls, oldest first *)
+  t_pc : list dstep;            (* rest of the current digestMessage call; [] = between calls *)
+  t_cur : option amsg;          (* the argument of the current call *)
+  t_loc : option amsg;          (* the goroutine's own buffer *)
+  t_res : str }.                (* value of the last hash step *)
+
+(* buildAction (after uploadInputs and buildCommand, which touch no shared buffer) *)
+Definition action_job (root : dirmsg) (cmd : cmdmsg) (timeout : N) (plat : list (str * str)) : job :=
+  fun done => match done with
+              | [] => Some (MDir root)
+              | [_] => Some (MCmd cmd)
+              | [r; c] => Some (MAct (AM c r timeout plat))
+              | _ => None
+              end.
+
+Definition spawn (j : job) : thread := TH j [] [] None None [].
+
+Section Conc.
+  Variable HM : amsg -> str.         (* SHA-256 of the serialised message *)
+  Variable prog : list dstep.        (* the body of digestMessage *)
+
+  Definition hash_buf (b : option amsg) : str := match b with Some m => HM m | None => s "?empty-buffer" end.
+
+  (* after a step: the call returns when no step is left *)
+  Definition advance (t : thread) (pc : list dstep) (loc : option amsg) (res : str) : thread :=
+    match pc with
+    | [] => TH (t_job t) (t_done t ++ [res]) [] None loc res
+    | _ => TH (t_job t) (t_done t) pc (t_cur t) loc res
+    end.
+
+  (* one atomic step of one goroutine; sh is the buffer on the Client *)
+  Definition tstep (sh : option amsg) (t : thread) : option amsg * thread :=
+    match t_pc t with
+    | [] => match t_job t (t_done t) with
+            | None => (sh, t)                                                       (* finished *)
+            | Some m => (sh, TH (t_job t) (t_done t) prog (Some m) (t_loc t) (t_res t))   (* call digestMessage(m) *)
+            end
+    | DMarshal BLocal :: r => (sh, advance t r (t_cur t) (t_res t))
+    | DMarshal BShared :: r => (t_cur t, advance t r (t_loc t) (t_res t))
+    | DHash BLocal :: r => (sh, advance t r (t_loc t) (hash_buf (t_loc t)))
+    | DHash BShared :: r => (sh, advance t r (t_loc t) (hash_buf sh))
+    end.
+
+  Fixpoint step_nth (i : nat) (sh : option amsg) (ts : list thread) : option amsg * list thread :=
+    match ts with
+    | [] => (sh, [])
+    | t :: r => match i with
+                | O => let (sh', t') := tstep sh t in (sh', t' :: r)
+                | S j => let (sh', r') := step_nth j sh r in (sh', t :: r')
+                end
+    end.
+
+  Definition gstate := (option amsg * list thread)%type.
+  Definition gstep (g : gstate) (i : nat) : gstate := step_nth i (fst g) (snd g).
+  (* a schedule: which goroutine moves next; ANY list of indices *)
+  Definition run_sched (sched : list nat) (g : gstate) : gstate := fold_left gstep sched g.
+  Definition conc_run (jobs : list job) (sched : list nat) : gstate := run_sched sched (None, map spawn jobs).
+
+  (* the same goroutine with the Client to itself *)
+  Fixpoint alone (n : nat) (t : thread) : thread :=
+    match n with O => t | S k => alone k (snd (tstep None t)) end.
+End Conc.
+
+Definition all_local (prog : list dstep) : bool :=
+  forallb (fun st => match st with DMarshal BLocal | DHash BLocal => true | _ => false end) prog.
+
+Definition hm (H : dirmsg -> str) (HC : cmdmsg -> str) (HA : actmsg -> str) (m : amsg) : str :=
+  match m with MDir d => H d | MCmd c => HC c | MAct a => HA a end.
+
+(* ---- PathHasher.Hash's memo (src/fs/hash.go) and the source files of an input root (follow-up round 2) ----
+   uploadInput: for every file of a source, os.Lstat, then c.state.PathHasher.Hash(name, false, true, false);
+   an error aborts uploadInputs / buildAction.  Hash is memoised by path for the life of the process.  The
+   statement after `result, err := hasher.hash(...)` is regenerated by gotrans (Gen.DirWalk hash_memo_store):
+   `guarded` says whether the store into the memo stands under `if err == nil`.  hasher.hash returns, WITH the
+   error, the sum of whatever was written so far (for a file that cannot be opened: the hash of nothing).
+   Abstractions: a digest token stands for (hex hash, size); recalc/store/timestamp are fixed as uploadInput
+   passes them; the wait map (two goroutines hashing one path at once) is not modelled; nil memo entries (CopyHash) are
+   representable and behave like absent ones here. *)
+Inductive fstate :=
+| FMissing
+| FBad (partial : str)               (* lstat works, reading fails; partial = the sum hasher.hash returns with the error *)
+| FGood (dg : str) (exec : bool).
+Definition fsys := path -> fstate.
+Definition memo := path -> option (option str).
+Definition fs_empty : fsys := fun _ => FMissing.
+Definition memo_empty : memo := fun _ => None.
+Definition fs_set (p : path) (st : fstate) (fs : fsys) : fsys := fun q => if path_eqb q p then st else fs q.
+Definition memo_set (p : path) (v : option str) (mm : memo) : memo := fun q => if path_eqb q p then Some v else mm q.
+
+Inductive hres := HOk (h : str) | HErr.
+Record src := SRC { s_dir : path; s_name : str }.     (* where the file goes in the input root = where it is on disk *)
+Definition src_path (x : src) : path := s_dir x ++ [s_name x].
+
+(* the life of one process: the file system changes, actions are prepared *)
+Inductive pstep := PSet (p : path) (st : fstate) | PPrep (srcs : list src).
+
+Section Memo.
+  Variable guarded : bool.
+
+  (* PathHasher.Hash(path, recalc=false, ...) *)
+  Definition hash_path (fs : fsys) (mm : memo) (p : path) : memo * hres :=
+    match mm p with
+    | Some (Some h) => (mm, HOk h)                                   (* present && cached != nil *)
+    | _ =>
+        match fs p with
+        | FMissing => (mm, HErr)                                     (* !PathExists(path) *)
+        | FBad partial => (if guarded then mm else memo_set p (Some partial) mm, HErr)
+        | FGood dg _ => (memo_set p (Some dg) mm, HOk dg)
+        end
+    end.
+
+  (* the file sources of one uploadInputs call, in the order they are walked: the insertions, or the error *)
+  Fixpoint prepare (fs : fsys) (mm : memo) (srcs : list src) : memo * option (list op) :=
+    match srcs with
+    | [] => (mm, Some [])
+    | x :: r =>
+        match fs (src_path x) with
+        | FMissing => (mm, None)                                     (* os.Lstat fails *)
+        | st =>
+            match hash_path fs mm (src_path x) with
+            | (mm1, HErr) => (mm1, None)
+            | (mm1, HOk h) =>
+                let ex := match st with FGood _ e => e | _ => false end in
+                let (mm2, rest) := prepare fs mm1 r in
+                (mm2, option_map (cons (AddFile (s_dir x) (FN (s_name x) h ex))) rest)
+            end
+        end
+    end.
+
+  Fixpoint run_hist (fs : fsys) (mm : memo) (h : list pstep) : list (option (list op)) :=
+    match h with
+    | [] => []
+    | PSet p st :: r => run_hist (fs_set p st fs) mm r
+    | PPrep srcs :: r => let (mm', o) := prepare fs mm srcs in o :: run_hist fs mm' r
+    end.
+
+  (* what a fresh process (empty memo) computes for each preparation *)
+  Fixpoint fresh_hist (fs : fsys) (h : list pstep) : list (option (list op)) :=
+    match h with
+    | [] => []
+    | PSet p st :: r => fresh_hist (fs_set p st fs) r
+    | PPrep srcs :: r => snd (prepare fs memo_empty srcs) :: fresh_hist fs r
+    end.
+End Memo.
+
 (* ---- correspondence cases ---- *)
 Definition fnode_eqb (a b : fnode) := str_eqb (fname a) (fname b) && str_eqb (fdig a) (fdig b) && Bool.eqb (fexec a) (fexec b).
 Definition dnode_eqb (a b : dnode) := str_eqb (dname a) (dname b) && option_eqb str_eqb (ddig a) (ddig b).
@@ -346,6 +511,9 @@ Fixpoint table_H (t : list (dirmsg * str)) (m : dirmsg) : str :=
   | (m', h) :: r => if dirmsg_eqb m m' then h else table_H r m
   end.
 
+Record cthread := CT { ct_root : dirmsg; ct_rootdg : str; ct_cmd : cmdmsg; ct_cmddg : str;
+                       ct_timeout : N; ct_plat : list (str * str); ct_actdg : str }.
+
 Inductive case :=
 | CBuild (ops : list op) (sent : list (dirmsg * str)) (root : dirmsg)   (* sent: every message put on ch, in order, with its digest *)
 | CEnv (loc home : str) (have_target is_binary sandbox : bool) (e : env) (out : env)
@@ -356,9 +524,41 @@ Inductive case :=
    platform, target.Env with the quoted values, package, command, shell, exit-on-error;
    observed Arguments, OutputPaths, Platform *)
 | CCmd (outs : list str) (named : list (str * str)) (outdirs labels cfgplat : list str) (tenv : list (str * (str * str)))
-       (pkg cmd shell : str) (eoe : bool) (args outpaths : list str) (plat : list (str * str)).
+       (pkg cmd shell : str) (eoe : bool) (args outpaths : list str) (plat : list (str * str))
+(* N goroutines calling the real Client.buildAction on ONE client at the same time: per goroutine the input root
+   and the Command (as the real code built them when run alone) with their reference digests and the reference
+   digest of the Action - all three computed by the harness with its own marshaller and SHA-256 -, a schedule, and
+   per goroutine every distinct action digest the concurrent calls returned *)
+| CConc (ths : list cthread) (sched : list nat) (obs : list (list str))
+(* one process, one PathHasher: file-system changes (a source unreadable, then repaired) interleaved with real
+   uploadInputs calls on one target; fixed = the target's other inputs; observed: the root of each call (None = error) *)
+| CPrep (fixed : list op) (h : list pstep) (sent : list (dirmsg * str)) (obs : list (option dirmsg)).
 
 Definition kv_eqb (a b : str * str) := str_eqb (fst a) (fst b) && str_eqb (snd a) (snd b).
+
+Definition cmdmsg_eqb (a b : cmdmsg) :=
+  list_eqb str_eqb (c_args a) (c_args b) && list_eqb kv_eqb (c_env a) (c_env b)
+  && list_eqb str_eqb (c_outs a) (c_outs b) && list_eqb kv_eqb (c_plat a) (c_plat b).
+Definition actmsg_eqb (a b : actmsg) :=
+  str_eqb (a_cmd a) (a_cmd b) && str_eqb (a_root a) (a_root b) && N.eqb (a_timeout a) (a_timeout b)
+  && list_eqb kv_eqb (a_plat a) (a_plat b).
+
+(* the reference digests as a hash function of messages *)
+Fixpoint table_HM (ths : list cthread) (m : amsg) : str :=
+  match ths with
+  | [] => s "?unhashed"
+  | t :: r =>
+      match m with
+      | MDir d => if dirmsg_eqb d (ct_root t) then ct_rootdg t else table_HM r m
+      | MCmd c => if cmdmsg_eqb c (ct_cmd t) then ct_cmddg t else table_HM r m
+      | MAct a => if actmsg_eqb a (AM (ct_cmddg t) (ct_rootdg t) (ct_timeout t) (ct_plat t)) then ct_actdg t else table_HM r m
+      end
+  end.
+
+(* digestMessage as the unchanged source has it (Proof.C28_Gen ties this to the regenerated program) *)
+Definition local_prog : list dstep := [DMarshal BLocal; DHash BLocal].
+
+Definition option_dirmsg_eqb := option_eqb dirmsg_eqb.
 
 Definition check (c : case) : bool :=
   match c with
@@ -379,4 +579,20 @@ Definition check (c : case) : bool :=
                   pkg cmd false false 0 in
       let m := command_of isort quote (CF shell eoe cfgplat [] []) d empty_dir in
       list_eqb str_eqb (c_args m) args && list_eqb str_eqb (c_outs m) outpaths && list_eqb kv_eqb (c_plat m) plat
+  | CConc ths sched obs =>
+      let jobs := map (fun t => action_job (ct_root t) (ct_cmd t) (ct_timeout t) (ct_plat t)) ths in
+      let final := snd (conc_run (table_HM ths) local_prog jobs sched) in
+      Nat.eqb (length final) (length obs) && Nat.eqb (length ths) (length obs)
+      && forallb (fun to => match t_done (fst to) with
+                            | [_; _; a] => negb (str_eqb a (s "?unhashed")) && forallb (str_eqb a) (snd to)
+                            | _ => false
+                            end) (combine final obs)
+      && forallb (fun to => str_eqb (ct_actdg (fst to)) (match t_done (snd to) with [_; _; a] => a | _ => [] end)) (combine ths final)
+  | CPrep fixed h sent obs =>
+      list_eqb option_dirmsg_eqb
+        (map (fun o => match o with
+                       | None => None
+                       | Some ops => option_map snd (build (table_H sent) isort (ops ++ fixed))
+                       end) (run_hist true fs_empty memo_empty h))
+        obs
   end.
